@@ -890,7 +890,8 @@ def fp_of_byte_terms(bs):
 
 def struct_pack(I, args, kw):
     fmt = args[0]
-    if not isinstance(fmt, str):
+    from .values import FmtStr
+    if not isinstance(fmt, (str, FmtStr)):
         raise Unsupported("struct.pack with non-concrete format")
     vals = list(args[1:])
     if all(isinstance(v, (int, float, bytes, bool)) for v in vals):
@@ -909,7 +910,11 @@ def struct_pack(I, args, kw):
                 raise PyRaise(ExcV(_struct.error, ("argument for 's' must be a bytes object",)))
             n = seqops.length(seq)
             # exact fit expected by the callers (count derived from len); otherwise pad/truncate semantics
-            if isinstance(n, int):
+            if isinstance(cnt, Sym):
+                if not I.path.decide(z3.simplify(seqops.len_term(seq) == cnt.t)):
+                    raise Unsupported("struct 's' with symbolic count that differs from the data length")
+                part = seq
+            elif isinstance(n, int):
                 if n >= cnt:
                     part = seqops.slice_(seq, 0, cnt)
                 else:
@@ -955,12 +960,13 @@ def struct_calcsize(I, args, kw):
 def struct_unpack(I, args, kw, prefix_ok=False):
     fmt, data = args[0], args[1]
     offset = args[2] if len(args) > 2 else kw.get("offset", 0)
-    if not isinstance(fmt, str):
+    from .values import FmtStr
+    if not isinstance(fmt, (str, FmtStr)):
         raise Unsupported("struct.unpack with non-concrete format")
     seq = I.as_seq(data)
     if seq is None or seq.kind not in ("bytes", "bytearray"):
         raise _type_error("a bytes-like object is required")
-    if seq.items is not None and all(isinstance(i, int) for i in seq.items) and isinstance(offset, int):
+    if isinstance(fmt, str) and seq.items is not None and all(isinstance(i, int) for i in seq.items) and isinstance(offset, int):
         try:
             raw = bytes(seq.items)
             r = _struct.unpack_from(fmt, raw, offset) if prefix_ok else _struct.unpack(fmt, raw)
@@ -968,7 +974,10 @@ def struct_unpack(I, args, kw, prefix_ok=False):
         except _struct.error as exc:
             raise PyRaise(ExcV(_struct.error, exc.args))
     codes = parse_struct_format(fmt)
-    total = sum(cnt if code == "s" else STRUCT_CODES[code][0] for code, cnt in codes)
+    total = sum((to_term(cnt, "int") if code == "s" else STRUCT_CODES[code][0]) for code, cnt in codes)
+    for code, cnt in codes:
+        if code == "s" and isinstance(cnt, Sym) and not I.path.decide(cnt.t >= 0):
+            raise PyRaise(ExcV(_struct.error, ("bad char in struct format",)))
     n = seqops.len_term(seq)
     off = to_term(offset, "int")
     if prefix_ok:
@@ -982,9 +991,10 @@ def struct_unpack(I, args, kw, prefix_ok=False):
     arr, _, _ = seqops.as_array(seq)
     for code, cnt in codes:
         if code == "s":
-            part = seqops.slice_(seq, mk("int", z3.simplify(pos)), mk("int", z3.simplify(pos + cnt)))
+            ct = to_term(cnt, "int")
+            part = seqops.slice_(seq, mk("int", z3.simplify(pos)), mk("int", z3.simplify(pos + ct)))
             out.append(I.box_seq(part.with_kind("bytes")))
-            pos = pos + cnt
+            pos = pos + ct
             continue
         size, signed, kind = STRUCT_CODES[code]
         bs = [z3.Select(arr, z3.simplify(pos + k)) for k in range(size)]
